@@ -31,18 +31,17 @@ where
     /// and a given window length
     #[inline]
     pub fn new(view: V, window_len: usize) -> Self {
-        assert!(
-            window_len > 2,
-            "window_len must be greater than 2, the cycle needs three smoothed values"
-        );
+        // The cycle reads the three most recent smoothed values and each of
+        // them spans four inputs, so six values are buffered at the least.
+        let buf_len = window_len.max(6);
         CyberCycle {
             view,
             window_len,
             alpha: T::from(2.0).expect("can convert")
                 / (T::from(window_len).expect("can convert") + T::one()),
-            vals: VecDeque::with_capacity(window_len),
-            out: VecDeque::with_capacity(window_len),
-            smooth: vec![T::zero(); window_len],
+            vals: VecDeque::with_capacity(buf_len),
+            out: VecDeque::with_capacity(buf_len),
+            smooth: vec![T::zero(); buf_len],
         }
     }
 }
@@ -58,13 +57,13 @@ where
         let Some(val) = self.view.last() else { return };
         debug_assert!(val.is_finite(), "value must be finite");
 
-        if self.vals.len() >= self.window_len {
+        if self.vals.len() >= self.smooth.len() {
             self.vals.pop_front();
             self.out.pop_front();
         }
         self.vals.push_back(val);
 
-        if self.vals.len() < self.window_len {
+        if self.vals.len() < self.smooth.len() {
             self.out.push_back(T::zero());
             return;
         }
